@@ -47,6 +47,8 @@ type Engine struct {
 	quickQueries int
 	ghostDecls map[string]string // ghost name -> type text
 	ghostPkg   map[string]string
+	localGhost map[string]bool
+	chanGhostT map[string]types.Type // ghost event variables of named channels ($sends_x, $sent_x, $recvs_x, $received_x)
 }
 
 var targetPkgs = []string{".", "./internal/option", "./internal/sliceiterator", "./internal/help", "./dag", "./text"}
@@ -85,6 +87,7 @@ func loadEngine(repo string) (*Engine, error) {
 				return
 			}
 			e.funcs[e.fnKey(f)] = f
+			e.registerChanGhosts(f)
 			for _, a := range f.AnonFuncs {
 				addFn(a)
 			}
@@ -154,6 +157,12 @@ func loadEngine(repo string) (*Engine, error) {
 					}
 					e.ghostDecls[g] = t
 					e.ghostPkg[g] = name
+				}
+				for _, g := range sf.LocalGhosts {
+					if e.localGhost == nil {
+						e.localGhost = map[string]bool{}
+					}
+					e.localGhost[g] = true
 				}
 				e.axioms = append(e.axioms, sf.Axioms...)
 				e.lemmas = append(e.lemmas, sf.Lemmas...)
